@@ -12,14 +12,30 @@ NOTE = ("Trusted: Lean 4.33 kernel (axioms audited per theorem: propext, Classic
 CLAIMED = {
  "C01": dict(
     text="Lean theorems HL.Props.C01.mirror_change / mirror_notification / mirror_history: for every document, every finite "
-         "history of didOpen/didChange/didClose/re-open over any number of URIs sent by a conforming client the model's store equals "
-         "a UTF-16 reference client buffer (guard: no ranged change with range 0:0-0:0 = open known finding insert-at-origin, "
-         "with kernel-checked counterexample). The model (HL/Model/Text.lean) is tied to mapper.go/server.go by differential runs "
-         "through the real Server (changes decoded by the protocol library's own JSON decoder) and per-function ops; the same "
-         "executable spec judges the implementation's output.",
+         "history of didOpen/didChange/didClose/re-open over any number of URIs sent by a conforming client (start <= end, no position "
+         "inside a surrogate pair) the model's store equals a UTF-16 reference client buffer, with no guard on the shape of changes "
+         "(the two defects found - CRLF clamp, insertion at 0:0 taken for a full replacement - were repaired by fix: commits and are "
+         "kept as kernel-checked counterexamples against the pinned variants). The model (HL/Model/Text.lean) is tied to mapper.go / "
+         "server.go / cmd/hledger-lsp by differential runs: in-process through the real Server, over JSON-RPC against the built binary "
+         "(hook verif/getDocument), and per-function ops; the same executable spec judges the implementation's output. Regenerated "
+         "facts (isFullChange body, serial dispatch, goroutine list) are checked by HL/Generated/Expect. Not yet stated: the second "
+         "sentence (freshness of cached artefacts) beyond what C13 proves for diagnostics.",
     design="7.C01",
     technique="Lean 4 proof (induction on lines/histories, refinement to a UTF-16 reference buffer) + model/implementation correspondence"),
 }
+
+CLAIMED["C13"] = dict(
+    text="Proof over a labelled transition system of the server's documents, version counter, publish tasks and locks "
+         "(HL/Model/Srv.lean), for every uninterpreted diag function and every finite trace (any number of documents, opens, "
+         "changes, closes, any interleaving of task steps): C13_converges (in every quiescent state each open document shows the "
+         "diagnostics of its latest text), never_regresses, one_publisher_at_a_time, can_quiesce - by an explicit 14-clause inductive "
+         "invariant. The pinned code violated C13 (stale_publish_counterexample, reproduced on the real server); it was repaired by a "
+         "fix: commit and the theorems are about the repaired protocol. Tie to the Go code: the real Server is driven in-process "
+         "under a verif-tagged yield point and a blocking client stub; every publish-order permutation for bursts <=3 (thorough <=4) "
+         "on 1-2 documents, exhaustive small interleavings, overtake attempts and random walks with close/re-open are compared event "
+         "by event with the model and judged against diagnostics from a fresh server.",
+    design="7.C13",
+    technique="Lean 4 proof (inductive invariant over all traces of an LTS) + schedule-enumerating correspondence with the real Server")
 
 NOT_YET = {}
 
